@@ -175,6 +175,8 @@ def run_shard(spec, acc):
     rng = gen.rng_for(spec["seed"], ID, spec["name"])
     quick = spec["tier"] == "quick"
     literal_cases(spec, acc)
+    if spec["i"] % 4 == 0:
+        shared_settings_cases(spec, acc)
     defs = [d for d in dbx.defs if d.supported and d.type in ("Single", "Fast")]
     defs = [d for k, d in enumerate(defs) if k % spec["n"] == spec["i"]]
     n_cases = 40 if quick else 3000
@@ -290,6 +292,48 @@ def run_shard(spec, acc):
             acc.cover("definitions", d.id)
             if acc.evaluations % 401 == 0:
                 acc.sample(w)
+
+
+def shared_settings_cases(spec, acc):
+    """One settings object for all the decoders of an application: the same list / dict OBJECTS are passed to the constructor
+    of every route's decoder, one after the other (here the library's class is constructed directly, without the harness'
+    own games at construction time). The routes still agree - for address claims, which the filters treat specially, and for
+    ordinary frames."""
+    from ..lib import _RealDecoder, PhysicalQuantities
+    from .. import hist
+    rng = gen.rng_for(spec["seed"], ID, spec["name"], "shared-settings")
+    dbx = refdb.db()
+    singles = [d for d in dbx.defs if d.supported and d.fixed_layout and d.type == "Single" and (d.length or 9) <= 8 and not d.fallback
+               and not any(f.offset is not None for f in d.fields)]
+    for c in range(40 if spec["tier"] == "quick" else 400):
+        d = rng.choice(singles)
+        other = rng.choice(singles)
+        settings = [{"exclude_pgns": [60928, other.pgn]}, {"exclude_pgns": [other.pgn, 60928, 126996]}, {"exclude_pgns": ["isoAddressClaim", other.id]},
+                    {"include_pgns": [d.pgn, 60928]}, {"exclude_pgns": [60928], "preferred_units": {PhysicalQuantities.TEMPERATURE: "C"}},
+                    {"exclude_manufacturer_code": ["Garmin"], "exclude_pgns": [60928]}][c % 6]
+        src = rng.randrange(1, 250)
+        claim = hist.pick_name(rng, hostile=False).to_bytes(8, "little")
+        pb = dbx.pack(d, gen.base_raws(d, rng, dbx)).to_bytes(d.length, "little")
+        decs = {}
+
+        def dec_for(route):
+            if route not in decs:
+                decs[route] = _RealDecoder(**settings)          # the SAME argument objects for every route's decoder
+            return decs[route]
+        for label, pgn, data, prio in (("address-claim", 60928, claim, 6), ("data", d.pgn, pb, 3), ("address-claim-again", 60928, claim, 6)):
+            ident = wire.can_id(prio, pgn, src, 255)
+            routes = {
+                "ebyte": lambda: dec_for("ebyte").decode_tcp(wire.ebyte_frame(ident, data)),
+                "usb": lambda: dec_for("usb").decode_usb(wire.usb_frame(ident, data)),
+                "yd": lambda: dec_for("yd").decode_yacht_devices_string(wire.yd_line(ident, data).strip()),
+                "actisense": lambda: dec_for("actisense").decode_actisense_string(wire.actisense_line(prio, pgn, src, 255, data)),
+                "plain": lambda: dec_for("plain").decode_basic_string(wire.plain_line(prio, pgn, src, 255, data), already_combined=True),
+            }
+            outs = {n: outcome(fn) for n, fn in routes.items()}
+            w = {"definition": label if pgn == 60928 else d.id, "pgn": pgn, "settings": repr(settings), "payload_hex": data.hex(), "shared_settings_objects": True}
+            msgs = compare(outs, acc, w)
+            acc.case(("shared-settings", c, label) if msgs >= 2 or label.startswith("address-claim") else None)
+            acc.count("route_sets_compared_with_shared_settings_objects")
 
 
 def literal_cases(spec, acc):
